@@ -1,4 +1,20 @@
-// Component-level commands of grdrv (internal headers of /repo/src): vm, zones, colliders, cmap, lz4.
+// Component-level commands of grdrv (internal headers of /repo/src): cmap sweep, vm, lz4, zones, colliders.
 #pragma once
 #include "drv_common.h"
-inline std::string dispatch_components(uint8_t cmd, Reader &rd, std::map<uint32_t, std::vector<uint8_t>> &fonts) { (void)cmd; (void)rd; (void)fonts; return ""; }
+#include "cmap_sweep.h"
+
+// 'M' u32 fontid u32 only(0xFFFFFFFE = all)  -> sweep summary
+inline std::string cmd_cmap(Reader &rd, std::map<uint32_t, std::vector<uint8_t>> &fonts) {
+    uint32_t fid = rd.u32();
+    uint32_t only = rd.u32();
+    auto it = fonts.find(fid);
+    if (rd.bad || it == fonts.end()) return "{\"error\":\"bad cmap request\"}";
+    CmapSweep sw;
+    sweep_font(it->second, sw, [](uint32_t) {}, only);
+    return sw.json();
+}
+
+inline std::string dispatch_components(uint8_t cmd, Reader &rd, std::map<uint32_t, std::vector<uint8_t>> &fonts) {
+    if (cmd == 'M') return cmd_cmap(rd, fonts);
+    return "";
+}
